@@ -26,6 +26,7 @@ EXPLANATION = ("guard-dominance analysis over rustc MIR: for every mutation site
                "all histories and inputs; does not decide that a successful call changes exactly the named entries.")
 
 MEM = "impls::memory::MemoryFS"
+TWO_PATH_OPS = ("copy_file", "move_file", "move_dir")
 
 
 def table_m(facts, rep, rule_guard, rule_kind, self_ty=MEM, trait="FileSystem", ops_filter=None):
@@ -160,6 +161,22 @@ def table_m(facts, rep, rule_guard, rule_kind, self_ty=MEM, trait="FileSystem", 
         elif op == "metadata":
             for cb, bb, line in mm.ok_return_sites(b):
                 need(op, b, cb, bb, line, "metadata", ["E"], "Ok(metadata)")
+        elif op in TWO_PATH_OPS:
+            # optional same-filesystem fast paths (the path layer calls them after checking only !destination.exists()):
+            # every entry they add lies at/below `dest`, so the backend itself must establish that dest's parent is an
+            # existing directory, and the source's type
+            dkey = ("arg", 2, b.name_of_local(3) or "_3", b.id)
+            ins = [m for m in muts if "insert" in m[2]]
+            for cb, bb, sh, key, line in ins:
+                gv = GuardView(mm.guards(cb, bb), mm.inter)
+                for nm, ok in (("destination's parent exists", gv.parent_exists(dkey)),
+                               ("destination's parent is a directory", gv.parent_is_dir(dkey))):
+                    n += 1
+                    rep.ob(rule_guard, b.id, "%s: %s guarded by '%s'" % (op, sh, nm), ok,
+                           "holds on every path to the site" if ok else
+                           "the native %s adds entries at the destination without establishing that %s: the path layer only "
+                           "checks !destination.exists() before this fast path, so entries end up below a file / a missing parent" % (op, nm), line)
+                need(op, b, cb, bb, line, "insert", ["E", "D" if op == "move_dir" else "F"], sh)
         # missing target -> FileNotFound
         if op in ("append_file", "open_file", "read_dir", "remove_file", "metadata", "set_creation_time",
                   "set_modification_time", "set_access_time"):
@@ -221,5 +238,21 @@ def run(facts, rep, tier, ctx):
         c10.marker_rules(facts, rep, ws, prefix="R01.5m", only=("R10.1", "R10.3"))
     except ImportError:
         rep.note("adapter rules (C07/C09) not available yet")
+    # the async port: its path type, memory/physical backends and adapters are separate copies of the same contracts
+    wa = World(facts, True)
+    rep.ob("R01.A", "async_vfs", "async world present", wa.present(), "", "")
+    if wa.present():
+        from .c10 import _Prefixed
+        A = _Prefixed(rep, "A")
+        pra = PathRules(facts, wa)
+        k = pra.table_p(A, "R01.1")
+        pra.create_dir_all(A, "R01.1c")
+        founda, k2, mma = table_m(facts, A, "R01.2", "R01.2k", self_ty=wa.memory, trait="AsyncFileSystem")
+        k3 = failed_primitive_unchanged(facts, A, "R01.3", mma)
+        k4 = physrules.table_o_shape(facts, A, "R01.4", wa)
+        from . import c07, c09, c10
+        k5 = c07.delegation(facts, A, wa, rule="R01.5") + c09.table_u(facts, A, wa, rule="R01.5") + \
+            c10.marker_rules(facts, A, wa, prefix="R01.5m", only=("R10.1", "R10.3"))
+        rep.floor("async-world contract obligations", k + k2 + k3 + k4 + k5, 150)
     rep.assume("Table O (what the OS enforces per std call) is frozen from POSIX/Linux semantics")
     rep.assume("a writer's flush is not a primitive of this property's domain (touching a path while a handle is open is excluded)")
